@@ -65,6 +65,14 @@ CHECKS = {
    technique="TLC model checking of spec/Serializer.tla (the serializer as a deterministic printer over value classes x placements against the reader rules: StringsRoundTrip, NamesRoundTrip, NumbersRoundTrip, PlacementsOk) + class expansion and replay through Primitive::serialize and both parsers",
    text="The spec states per byte/character/number class what the serializer writes and what the reader makes of it, in each of the four placements, and TLC refutes four deviations (raw CR, raw name characters, big integers rejected, missing separator before endobj); every class is expanded in the harness to concrete values (all byte values, Unicode boundaries, numeric boundaries), written by the real serializer in the real framing and parsed back by the library and by an independent reference parser.",
    note="Class-level model (small); the assurance comes from the exhaustive class expansion in the replay. f32 formatting is sampled, not modelled."),
+ "C05": dict(level="model_checking", design="5/C05", engine="A:filters",
+   technique="TLC model checking of spec/Filters.tla (hex / ASCII85 / run-length decode automata, PNG un-prediction as the inverse of the reference predictor on real byte arithmetic, chain order and parameter pairing over uninterpreted codecs) + replay with independent reference encoders + sweeps of the numeric cores against the spec's formulas",
+   text="TLC checks the three ASCII decoders against their reference semantics on all short symbol strings, proves on a sample domain that the transcribed un-prediction inverts every PNG predictor, and checks stream-order decoding with index-paired parameters; five deviations refuted. Every case is concretised with reference encoders and decoded by enc::decode / Stream::data; the numeric cores are swept exhaustively where feasible (2^24 Paeth triples, hex pairs, RL headers) and by seeded sampling for ASCII85.",
+   note="Flate/LZW bit-level behaviour is outside the spec (third-party crates) and sampled only. Four recorded findings (predictor features not implemented) are suppressed by class."),
+ "C16": dict(level="model_checking", design="5/C16", engine="A:encoders",
+   technique="TLC model checking of the hex / ASCII85 structure automata of spec/Filters.tla + replay of enc::encode against enc::decode and independent reference decoders on exhaustive short inputs, runs and data up to 64 KiB",
+   text="The structure models define the standard format (zero-group shorthand, partial tail, EOD, odd digits); every supported encoder is run on all short inputs, runs and large random/structured data, its output decoded by the library and by an independent reference decoder for the format.",
+   note="The model part is small (shared with C05); assurance comes from the exhaustive short-input replay and the independent decoders."),
 }
 
 def main():
